@@ -13,7 +13,8 @@ VARIABLE l
 tvars == <<bvars, l>>
 
 Trace == ndJsonDeserialize(IOEnv.TRACE)
-EnvDeviations == IF "KF" \in DOMAIN IOEnv /\ IOEnv.KF # "" THEN {IOEnv.KF} ELSE {}
+\* deviations switched on for this validation run: environment variables KF1..KF6 (empty = none)
+EnvDeviations == {IOEnv[v] : v \in {"KF1", "KF2", "KF3", "KF4", "KF5", "KF6"} \cap DOMAIN IOEnv} \ {""}
 StopAt == IF "STOPAT" \in DOMAIN IOEnv THEN atoi(IOEnv.STOPAT) ELSE 0
 
 ev == Trace[l]
